@@ -8,7 +8,7 @@ login completion runs exactly once; Forge relay answers reach the backend exactl
    them on the real loginInboundConn over a real netmc connection.
 3. The programs are also replayed black-box on the live rig: PreLoginEvent subscribers call
    SendLoginPluginMessage (synchronously, from consumers, from a goroutine outliving the event),
-   a fake client answers in every order / duplicated / unknown ids / failure; and a fake Forge
+   a fake client answers in every order / duplicated / unknown ids / failure / success with an empty body, consumers may fail; and a fake Forge
    backend's fml:loginwrapper messages are relayed through a ModernForge client.
 4. TLC validates every recorded history against the abstract LoginPlugin.tla.
 """
@@ -115,12 +115,12 @@ def run(ctx):
     rnd.shuffle(progs)
     live = [dict(p) for p in progs[:ctx.pick(90, 1200)]]
     # the directed shape of the late-send scenario is always part of the sample
-    live.append({"pre": 0, "resps": [{"id": 1, "ok": True, "chain": False, "cerr": False}], "gor": ["h1"]})
+    live.append({"pre": 0, "resps": [{"id": 1, "ok": True, "chain": False, "cerr": False, "empty": False}], "gor": ["h1"]})
     # the consumer of the last outstanding message fails: completion must still run
-    live.append({"pre": 2, "resps": [{"id": 2, "ok": True, "chain": False, "cerr": False},
-                                     {"id": 1, "ok": True, "chain": False, "cerr": True}], "gor": []})
-    live.append({"pre": 1, "resps": [{"id": 1, "ok": True, "chain": False, "cerr": True},
-                                     {"id": 2, "ok": False, "chain": False, "cerr": False}],
+    live.append({"pre": 2, "resps": [{"id": 2, "ok": True, "chain": False, "cerr": False, "empty": False},
+                                     {"id": 1, "ok": True, "chain": False, "cerr": True, "empty": False}], "gor": []})
+    live.append({"pre": 1, "resps": [{"id": 1, "ok": True, "chain": False, "cerr": True, "empty": False},
+                                     {"id": 2, "ok": False, "chain": False, "cerr": False, "empty": False}],
                  "gor": ["h1"]})
     for i, p in enumerate(live):
         p["at"] = rnd.randrange(len(p["resps"]) + 1) if i < len(live) - 3 else (0 if i == len(live) - 3 else 1)
@@ -134,10 +134,10 @@ def run(ctx):
             seen.add(k)
             rel.append(p)
     rel = rel[:ctx.pick(30, 400)]
-    rel.append({"pre": 3, "resps": [{"id": 3, "ok": True, "chain": False, "cerr": False},
-                                    {"id": 1, "ok": False, "chain": False, "cerr": False},
-                                    {"id": 3, "ok": True, "chain": False, "cerr": False},
-                                    {"id": 2, "ok": True, "chain": False, "cerr": False}],
+    rel.append({"pre": 3, "resps": [{"id": 3, "ok": True, "chain": False, "cerr": False, "empty": True},
+                                    {"id": 1, "ok": False, "chain": False, "cerr": False, "empty": False},
+                                    {"id": 3, "ok": True, "chain": False, "cerr": False, "empty": False},
+                                    {"id": 2, "ok": True, "chain": False, "cerr": False, "empty": False}],
                 "gor": []})
     with open(ctx.path("progs.json"), "w") as fh:
         json.dump(live, fh)
